@@ -2,6 +2,7 @@ package verifharness
 
 import (
 	"fmt"
+	"net/http"
 	"strings"
 	"time"
 
@@ -245,17 +246,39 @@ func livenessHealRealServer(w *World) {
 	tlsOn := w.KnobBool("tls", 50)
 	scfg := map[string]any{"bindAddr": "10.0.0.1", "bindPort": 7000, "auth": map[string]any{"token": token},
 		"transport": map[string]any{"tcpMux": tcpMux}, "allowPorts": []map[string]any{{"start": 20000, "end": 20009}}}
+	// optionally a server plugin is consulted for every registration, which then takes simulated time: a client that
+	// dies in that window must still be cleaned up completely
+	slowReg := time.Duration(0)
+	if w.KnobBool("newproxy_plugin", 50) {
+		slowReg = time.Duration(w.KnobPick("newproxy_plugin_ms", 20, 200, 800)) * time.Millisecond
+		restore := w.PlugN.Enter()
+		pln, perr := w.Net.Listen("tcp", "10.0.4.1:9800")
+		restore()
+		if perr != nil {
+			w.Fail("%v", perr)
+		}
+		w.PlugN.Go(func() {
+			(&http.Server{Handler: http.HandlerFunc(func(rw http.ResponseWriter, _ *http.Request) {
+				time.Sleep(slowReg)
+				rw.Header().Set("Content-Type", "application/json")
+				rw.Write([]byte(`{"reject":false,"unchange":true}`))
+			})}).Serve(pln)
+		})
+		scfg["httpPlugins"] = []map[string]any{{"name": "slow", "addr": "10.0.4.1:9800", "path": "/handler", "ops": []string{"NewProxy"}}}
+	}
 	frps, err := w.StartFrps(w.Frps, scfg)
 	if err != nil {
 		w.Fail("frps: %v", err)
 	}
 	c1 := w.Net.NewNode("frpc1", "10.0.1.1")
-	if _, err := w.StartFrpc(c1, map[string]any{"serverAddr": "10.0.0.1", "serverPort": 7000, "loginFailExit": false,
+	ccfg := map[string]any{"serverAddr": "10.0.0.1", "serverPort": 7000, "loginFailExit": false,
 		"auth":      map[string]any{"token": token},
 		"transport": map[string]any{"tcpMux": tcpMux, "connectServerLocalIP": "10.0.1.1", "tls": map[string]any{"enable": tlsOn}, "poolCount": w.KnobPick("pool", 0, 1, 3)},
 		"proxies": []map[string]any{
 			{"name": "h1", "type": "tcp", "localIP": "127.0.0.1", "localPort": 9300, "remotePort": 20003},
-			{"name": "h2", "type": "tcp", "localIP": "127.0.0.1", "localPort": 9300, "remotePort": 20004}}}); err != nil {
+			{"name": "h2", "type": "tcp", "localIP": "127.0.0.1", "localPort": 9300, "remotePort": 20004}}}
+	fc, err := w.StartFrpc(c1, ccfg)
+	if err != nil {
 		w.Fail("frpc: %v", err)
 	}
 	// echo backend
@@ -309,10 +332,28 @@ func livenessHealRealServer(w *World) {
 	for i := 0; i < nfaults; i++ {
 		time.Sleep(time.Duration(r.Range(0, 20000)) * time.Millisecond)
 		serverDown := false
-		switch k := r.Intn(5); k {
-		case 0: // reset every connection of the client
+		resetAll := func() {
 			for _, id := range w.Net.PairsMatching(func(l string, _ int) bool { return strings.HasPrefix(l, "frpc1>10.0.0.1:7000") }) {
 				w.Net.ResetPair(id)
+			}
+		}
+		logins := func() int { w.mu.Lock(); defer w.mu.Unlock(); return w.res.Probes["frps.login"] }
+		switch k := r.Intn(6); k {
+		case 0: // reset every connection of the client
+			resetAll()
+		case 5: // the client process is killed while it is registering its proxies on a new session, and started again
+			before := logins()
+			resetAll()
+			if w.WaitUntil(60*time.Second, time.Millisecond, func() bool { return logins() > before }) {
+				w.Probe("liveness.kill_during_reregistration")
+				cfg := w.Net.Cfg()
+				time.Sleep(time.Duration(r.Intn(int(2*(cfg.BaseLatency+cfg.Jitter)/time.Microsecond)+2000)) * time.Microsecond)
+				fc.Stop()          // the process is gone ...
+				w.Net.KillNode(c1) // ... and the operating system closes its sockets: what it had written is still delivered
+				time.Sleep(time.Duration(r.Range(100, 5000)) * time.Millisecond)
+				if fc, err = w.StartFrpc(c1, ccfg); err != nil {
+					w.Fail("restart frpc: %v", err)
+				}
 			}
 		case 1, 2: // blackhole of arbitrary duration
 			w.Net.Partition(c1, true)
